@@ -137,6 +137,45 @@ func (s *sys) remove(raw uint32, ones int) string {
 	return ""
 }
 
+// mixed is Add/Remove with the range spelled as a 16-byte IPv4 address and a 4-byte mask (what
+// &net.IPNet{IP: net.IPv4(10,0,0,0), Mask: net.CIDRMask(8,32)} gives). The statement leaves open whether that counts as
+// an IPv4 CIDR: the filter may reject it with the sentinel - then nothing changes - or accept it - then it is the range
+// it spells, exactly as in the 4-byte form.
+func (s *sys) mixed(raw uint32, ones int, remove bool) string {
+	p := prefix{raw & mask(ones), ones}
+	n := &net.IPNet{IP: net.IPv4(byte(raw>>24), byte(raw>>16), byte(raw>>8), byte(raw)), Mask: net.CIDRMask(ones, 32)}
+	var err error
+	if remove {
+		err = s.f.Remove(n)
+	} else {
+		err = s.f.Add(n)
+	}
+	what := map[bool]string{false: "add", true: "remove"}[remove]
+	if errors.Is(err, netutil.ErrInvalidIPv4CIDR) {
+		s.hist = append(s.hist, what+"-16-byte-ip "+p.String()+" (rejected)")
+		return ""
+	}
+	if err != nil {
+		return fmt.Sprintf("%s of %v spelled with a 16-byte IP returned %v (neither nil nor ErrInvalidIPv4CIDR)", what, p, err)
+	}
+	s.hist = append(s.hist, what+"-16-byte-ip "+p.String()+" (accepted)")
+	switch {
+	case ones == 0:
+		s.m.matchAll = !remove
+	case remove:
+		delete(s.m.set, p)
+	default:
+		s.m.set[p] = true
+		s.validAdds++
+		if s.validAdds > 256 && !s.crossed {
+			s.crossed = true
+			s.removedBeforeCross = s.removedAny
+		}
+	}
+	s.mention(p)
+	return ""
+}
+
 // invalid arguments: must be rejected with the sentinel and change nothing.
 func invalidArgs() []struct {
 	name string
@@ -373,6 +412,18 @@ func TestStateMachine(t *testing.T) {
 				}
 				fail(s.remove(rapid.Uint32().Draw(t, "neverThere"), rapid.IntRange(1, 32).Draw(t, "ones")))
 				afterStep(touched...)
+				fail(s.probeAll())
+			},
+			"sixteenByteSpelling": func(t *rapid.T) {
+				// a range that is present (to be removed) or any range (to be added), spelled with a 16-byte IP
+				remove := rapid.Bool().Draw(t, "remove")
+				p := genPrefix(s).Draw(t, "p")
+				if remove && len(s.mentioned) > 0 && rapid.Bool().Draw(t, "ofMentioned") {
+					q := s.mentioned[rapid.IntRange(0, len(s.mentioned)-1).Draw(t, "which")]
+					p = [2]uint32{q.net, uint32(q.ones)}
+				}
+				fail(s.mixed(p[0], int(p[1]), remove))
+				afterStep(prefix{p[0] & mask(int(p[1])), int(p[1])})
 				fail(s.probeAll())
 			},
 			"otherFilter": func(t *rapid.T) {
